@@ -43,6 +43,7 @@ type Oblig struct {
 	Setup    func(e *sym.Engine)
 	Note     string
 	Budget   time.Duration
+	NoRedirect bool // run without the property's redirects (real callees)
 }
 
 // Prop describes how one property is checked.
@@ -608,6 +609,11 @@ func runOblig(base *sym.Engine, prog *sym.Program, p *Prop, o Oblig, worker int,
 	}
 	if o.Setup != nil {
 		o.Setup(e)
+	}
+	if o.NoRedirect {
+		for k := range e.Redirect {
+			delete(e.Redirect, k)
+		}
 	}
 	budget := 5 * time.Minute
 	if tier == "thorough" {
